@@ -190,7 +190,7 @@ def build_driver():
     for s in srcs:
         sh(["cp", s, d])
     names = [os.path.basename(s) for s in srcs]
-    rc, out = sh(["ocamlfind", "ocamlopt", "-O3", "-w", "-a"] + names + ["-o", "driver"], cwd=d, timeout=1200)
+    rc, out = sh(["ocamlfind", "ocamlopt", "-package", "str", "-linkpkg", "-O3", "-w", "-a"] + names + ["-o", "driver"], cwd=d, timeout=1200)
     if rc != 0:
         return False, out
     open(stamp, "w").write(h.hexdigest())
